@@ -1,5 +1,5 @@
 \* trace validation: the constants only have to be at least as large as anything the recorder does
-CONSTANTS NT = 8  NK = 16  NV = 63  NS = 63  MaxCtx = 1000000  MaxSet = 1000000  MaxDepth = 1000000  MaxMap = 16  MaxDrop = 1000000  WithEmpty = TRUE
+CONSTANTS NT = 8  NK = 16  NV = 63  NS = 63  MaxCtx = 1000000  MaxSet = 1000000  MaxDepth = 1000000  MaxMap = 16  MaxDrop = 1000000  MaxTok = 1000000  SampleToks = 0  WithEmpty = TRUE
           GenDepth = 0  DeepTarget = 15  Hist = FALSE  KeepFlags = TRUE  Dev = {}
 INIT TInit
 NEXT TNext
